@@ -7,6 +7,7 @@ import (
 	"os/exec"
 	"os/user"
 	"strconv"
+	"sync"
 	"syscall"
 
 	"github.com/creack/pty"
@@ -44,6 +45,9 @@ type hopSession struct {
 
 	usingAuthGrant    bool // true if client authenticated with authgrant
 	authorizedActions []authgrants.Authgrant
+	// actionsLock guards authorizedActions: every exec request is served by
+	// its own goroutine, and each of them matches and consumes a grant.
+	actionsLock sync.Mutex
 
 	forward portforwarding.Forward
 }
@@ -116,7 +120,10 @@ func (sess *hopSession) start() {
 		if r, ok := tube.(*tubes.Reliable); ok {
 			switch tube.Type() {
 			case common.ExecTube:
-				if len(sess.authorizedActions) == 1 && sess.authorizedActions[0].GrantType == authgrants.Acme {
+				sess.actionsLock.Lock()
+				acmeOnly := len(sess.authorizedActions) == 1 && sess.authorizedActions[0].GrantType == authgrants.Acme
+				sess.actionsLock.Unlock()
+				if acmeOnly {
 					// TODO Do Acme Stuff
 				} else {
 					t2, err := sess.tubeMuxer.Accept()
